@@ -9,6 +9,8 @@ import (
 	"os"
 	"os/exec"
 	"path/filepath"
+	"runtime"
+	"runtime/debug"
 	"sort"
 	"strings"
 	"sync"
@@ -117,7 +119,24 @@ func load(o *options) (*interp.Machine, *ssa.Package) {
 		fatal("package errors")
 	}
 	prog, spkgs := ssautil.AllPackages(pkgs, ssa.InstantiateGenerics)
-	prog.Build()
+	// Function bodies are built lazily, package by package, when a function of
+	// the package is first called (building all ~320 dependency packages costs
+	// ~2 GB per worker).  Packages under test are built up front.
+	interp.InitVars = map[string]bool{}
+	packages.Visit(pkgs, nil, func(p *packages.Package) {
+		if p.TypesInfo != nil {
+			for _, ini := range p.TypesInfo.InitOrder {
+				for _, v := range ini.Lhs {
+					interp.InitVars[p.PkgPath+"."+v.Name()] = true
+				}
+			}
+		}
+	})
+	for _, sp := range prog.AllPackages() {
+		if strings.HasPrefix(sp.Pkg.Path(), "github.com/jrhy/") {
+			sp.Build()
+		}
+	}
 	interp.InitAllow = func(p string) bool {
 		return strings.HasPrefix(p, "github.com/jrhy/") && !strings.Contains(p, "proto/v1") && !strings.HasSuffix(p, "/sql")
 	}
@@ -126,7 +145,11 @@ func load(o *options) (*interp.Machine, *ssa.Package) {
 		mode |= interp.EnableTracing
 	}
 	m := interp.Setup(spkgs[0], mode, &types.StdSizes{WordSize: 8, MaxAlign: 8})
-	return m, spkgs[0]
+	main := spkgs[0]
+	pkgs = nil
+	debug.SetGCPercent(40)
+	runtime.GC()
+	return m, main
 }
 
 func fatal(f string, a ...any) {
